@@ -15,6 +15,24 @@ def cases(rng, tier):
     n = 300 if tier == "quick" else 5000
     for _ in range(n):
         yield dcgen.gen_case(rng, forced=True)
+    # whole programs on simulations built from options (stores issued by the real instructions, in both modes): at the end
+    # the write-through backing store IS the flat run's memory, a write-back system still returns every written value
+    import rvgen
+    for i in range(60 if tier == "quick" else 1200):
+        mode = "five" if i % 2 else "single"
+        d = rvgen.penalty_cache_spec(rng, "d")
+        if i % 3 == 0:
+            yield rvgen.wrap_case(rng, mode, trace=6, dspec=d, suite="sim-dcache-prog")
+        else:
+            c_ = rvgen.sim_case(rng, mode, hazard=True, opts={"aligned": True, "ctl": i % 4 == 0}, trace=6, run=500, dprob=0.0, iprob=0.0, suite="sim-dcache-prog")
+            c_.lines[0] = f"sim.new {mode} 1 {d} -"
+            c_.meta["d"] = d
+            yield c_
+    for prog, regs in rvgen.store_hit_programs():          # store hits / misses of every width and lane, read back before and after displacement
+        for mode in ("single", "five"):
+            for d in ("wb,lru,0,0,1,0", "wb,plru,1,1,2,3", "wt,lru,0,1,2,0", "wt,lru,1,0,1,2"):
+                lines = rvgen.header(mode, True, d, "-", prog, regs, [(rvgen.DATA + i, 0x11 * (i + 1)) for i in range(4)]) + ["sim.snap", "sim.run 200", "sim.snap"]
+                yield Case("sim-dcache-prog", lines, None, {"mode": mode, "hazard": True, "prog": prog, "regs": regs, "pokes": [], "d": d, "i": "-"})
     if tier == "thorough":
         for c in c03.cases(rng, "thorough"):
             if c.suite == "dcache-exh":
@@ -25,7 +43,54 @@ nontrivial = c03.nontrivial
 measure = c03.measure
 
 
+canon = c03.canon
+
+
+def _prog_oracle(c):
+    import props.c02 as c02
+    new = c.lines[0].split()
+    mode, dspec = new[1], new[3]
+    if dspec == "-":
+        return []
+    wt = dspec.startswith("wt")
+
+    def run(spec):
+        im = implmod.Impl()
+        im.run(f"sim.new {mode} 1 {spec} -")
+        for l in c.lines:
+            if l.split()[0] in ("sim.prog", "sim.load", "sim.reg", "sim.poke"):
+                im.run(l)
+        k, fault = 0, None
+        try:
+            while not im.sim.is_done() and k < 3000:
+                im.sim.step(); k += 1
+        except Exception as e:
+            fault = str(getattr(e, "error_message", type(e).__name__))
+        return im, fault, k
+    a, fa, ka = run(dspec)
+    b, fb, kb = run("-")
+    if (fa and "cross a word boundary" in fa) or (fb and "cross a word boundary" in fb) or ka >= 3000 or kb >= 3000 or (fa is None) != (fb is None):
+        return []          # unaligned programs are outside the claim; differing faults are C03's business
+    flat = {int(k_): int(v) for k_, v in b.sim.state.memory.memory_file.items()}
+    ms = a.sim.state.memory
+    if wt:
+        back = {int(k_): int(v) for k_, v in ms.memory.memory_file.items()}
+        if {k_: v for k_, v in back.items() if v} != {k_: v for k_, v in flat.items() if v}:
+            bad = sorted(k_ for k_ in set(back) | set(flat) if back.get(k_, 0) != flat.get(k_, 0))[:4]
+            return [Failure("oracle", PROP, f"write-through: after the program the backing memory differs from the memory of the run without cache at {bad} ({mode})", "wt:backing-not-current")]
+    for ad, v in sorted(flat.items()):
+        try:
+            got = int(ms.read_byte(ad, False))
+        except Exception:
+            continue
+        if got != v:
+            return [Failure("oracle", PROP, f"after the program the byte at {ad} reads {got} through the {'write-through' if wt else 'write-back'} system, the run without cache stored {v} ({mode})", "wb:lost-write" if not wt else "wt:resident-stale")]
+    return []
+
+
 def oracle(c):
+    if c.suite == "sim-dcache-prog":
+        return _prog_oracle(c)
     fails = []
     im = implmod.Impl()
     flat = {}            # logical byte contents defined by the history of accepted writes
